@@ -446,7 +446,7 @@ func genFlat(t *rapid.T, plant bool) FlatCase {
 
 func genFlatWith(t *rapid.T, o OptSet, plant, structs bool) FlatCase {
 	c := FlatCase{O: o, Scheme: rapid.IntRange(0, nSchemes-1).Draw(t, "scheme")}
-	cfg := &gen.TreeCfg{Depth: 3, Width: 3, Keys: append(append(keysFor(c.O, flatKeys), drawOdd(t, c.O)...), drawUni(t, c.O)...), Strings: gen.HostileStrings, Reprs: true}
+	cfg := &gen.TreeCfg{Depth: 3, Width: 3, Keys: append(append(keysFor(c.O, flatKeys), drawOdd(t, c.O)...), append(drawUni(t, c.O), drawWord(t, c.O)...)...), Strings: gen.HostileStrings, Reprs: true}
 	if runlog.Thorough() {
 		cfg.Depth, cfg.Width = 4, 4
 	}
